@@ -20,3 +20,18 @@ package gtab
 //@   loop 4
 //@     invariant (isnil(ll) || fresh(ll)) && numLookups == len(info.LookupList)
 //@     invariant forall i int :: 0 <= i && i < len(ll) ==> ll[i] < len(info.LookupList)
+
+// Lookup flags (OpenType chapter 2, "lookupFlag bit enumeration"): 0x0002
+// ignore base glyphs, 0x0004 ignore ligatures, 0x0008 ignore marks (supersedes
+// the following), 0x0010 use mark filtering set (supersedes the attachment
+// type), 0xFF00 mark attachment type.  GDEF glyph classes: 1 base, 2 ligature, 3 mark.
+//@ spec inMarkSet(k *keepFunc, gid uint16) bool = k.Gdef.MarkGlyphSets != nil && k.Meta.MarkFilteringSet < len(k.Gdef.MarkGlyphSets) && has(k.Gdef.MarkGlyphSets[k.Meta.MarkFilteringSet], gid) && k.Gdef.MarkGlyphSets[k.Meta.MarkFilteringSet][gid]
+//@ spec attachOK(k *keepFunc, gid uint16) bool = k.Gdef.MarkAttachClass != nil && k.Gdef.MarkAttachClass[gid] == (k.Meta.LookupFlags >> 8)
+//@ spec keepMark(k *keepFunc, gid uint16) bool = ite(k.Meta.LookupFlags&8 != 0, false, ite(k.Meta.LookupFlags&16 != 0, inMarkSet(k, gid), ite(k.Meta.LookupFlags&65280 != 0, attachOK(k, gid), true)))
+//@ spec keepSpec(k *keepFunc, gid uint16) bool = ite(k.Gdef.GlyphClass[gid] == 1, k.Meta.LookupFlags&2 == 0, ite(k.Gdef.GlyphClass[gid] == 2, k.Meta.LookupFlags&4 == 0, ite(k.Gdef.GlyphClass[gid] == 3, keepMark(k, gid), true)))
+
+//@ func (k *keepFunc) Keep(gid glyph.ID) (keep bool)   props: C06 C07
+//@   requires k != nil ==> k.Meta != nil && k.Gdef != nil
+//@   ensures k == nil ==> keep
+//@   ensures k != nil ==> keep == keepSpec(k, gid)
+//@   modifies nothing
